@@ -43,10 +43,10 @@ Section root.
       assert (Hkeep : r_unavB s' = r_unavB s -> r_unavS s' = r_unavS s -> forall r k, r ∈ roots ->
                 r ∉ (match k with KB => r_unavB s' | KS => r_unavS s' end) -> ready (hist s') k r).
       { intros H1 H2 r k Hr Hn. rewrite Hh. apply (ro_ack _ Hro r k Hr). destruct k; [by rewrite <- H1|by rewrite <- H2]. }
-      destruct Hrs as [o rest Hp Hq Hq' _ Hp' (H1&H2&H3) _ _
-                      |t rest _ Hp Hq Hq' Hp' (H1&H2&H3) _ _
-                      |t act rest _ Hp Hq Hq' Hp' H1 H2 H3 _ _
-                      |t act rest _ Hp Hq Hq' Hp' H1 H2 H3 _ _
+      destruct Hrs as [pre o rest Hp Hq Hq' _ Hp' (H1&H2&H3) _ _
+                      |pre t rest _ Hp Hq Hq' Hp' (H1&H2&H3) _ _
+                      |pre t act rest _ Hp Hq Hq' Hp' H1 H2 H3 _ _
+                      |pre t act rest _ Hp Hq Hq' Hp' H1 H2 H3 _ _
                       |_ Hp HB HS Hsv0 Hp' _ (H1&H2&H3) _ _
                       |_ Hp HB HS Hsv0 Hp' _ (H1&H2&H3) _ _
                       |_ Hp' _ (H1&H2&H3) _ _
@@ -56,12 +56,12 @@ Section root.
         intros x Hs. rewrite Hp' in Hs. rewrite Hh. by apply (ro_status _ Hro).
       + split; [done| |by apply Hkeep|by rewrite H1, H2; apply (ro_sub _ Hro)].
         intros x Hs. rewrite Hp' in Hs. cbn in Hs. injection Hs as <-. rewrite Hh. apply (ro_err _ Hro).
-        unfold err_in. rewrite Hq. apply elem_of_list_here.
+        unfold err_in. rewrite Hq. apply elem_of_mid.
       + split; [done| | |].
         * intros x Hs. by rewrite Hp' in Hs.
         * intros r k Hr Hn. rewrite Hh. destruct k.
           -- rewrite H1 in Hn. destruct (decide (r = t)) as [->|Hne].
-             ++ eapply (ri_msg _ _ Hri ARoot). cbn. rewrite Hq. apply elem_of_list_here.
+             ++ eapply (ri_msg _ _ Hri ARoot). cbn. rewrite Hq. apply elem_of_mid.
              ++ apply (ro_ack _ Hro r KB Hr). set_solver.
           -- rewrite H2 in Hn. by apply (ro_ack _ Hro r KS Hr).
         * rewrite H1, H2. destruct (ro_sub _ Hro). set_solver.
@@ -70,7 +70,7 @@ Section root.
         * intros r k Hr Hn. rewrite Hh. destruct k.
           -- rewrite H1 in Hn. by apply (ro_ack _ Hro r KB Hr).
           -- rewrite H2 in Hn. destruct (decide (r = t)) as [->|Hne].
-             ++ eapply (ri_msg _ _ Hri ARoot). cbn. rewrite Hq. apply elem_of_list_here.
+             ++ eapply (ri_msg _ _ Hri ARoot). cbn. rewrite Hq. apply elem_of_mid.
              ++ apply (ro_ack _ Hro r KS Hr). set_solver.
         * rewrite H1, H2. destruct (ro_sub _ Hro). set_solver.
       + split; [done| |by apply Hkeep|by rewrite H1, H2; apply (ro_sub _ Hro)].
